@@ -7,7 +7,8 @@
 (*            the wallet / free quote, every position (qty, entry, mark price,   *)
 (*            base holding) and every active order (symbol, side, qty, price)    *)
 (*   "final": the same projection taken when the simulation hands over to the    *)
-(*            report generation (the final portfolio).                          *)
+(*            report generation (the final portfolio), and the equity series     *)
+(*            (store.app.daily_balance) as the report will see it.               *)
 (* Money in units of 1/1024, quantities in 1/1024, marks: integer ticks          *)
 (* (mark = 1024 * tick), order prices and entries in 1/1024.  `exact` says      *)
 (* that every logged number is an exact multiple of its unit; otherwise (an      *)
@@ -20,11 +21,11 @@
 EXTENDS Integers, Sequences, FiniteSets, TLC, Json, IOUtils
 Data == JsonDeserialize(IOEnv.TRACE_FILE)
 Traces == Data.traces
-VARIABLES tid, l, nd, lastv, verdict
-vars == <<tid, l, nd, lastv, verdict>>
+VARIABLES tid, l, nd, lastv, vals, verdict
+vars == <<tid, l, nd, lastv, vals, verdict>>
 Ev(t) == Traces[t].ev
 Hdr(t) == Traces[t].hdr
-Init == tid \in 1..Len(Traces) /\ l = 1 /\ nd = 0 /\ lastv = 0 /\ verdict = "ok"
+Init == tid \in 1..Len(Traces) /\ l = 1 /\ nd = 0 /\ lastv = 0 /\ vals = <<>> /\ verdict = "ok"
 Abs(x) == IF x < 0 THEN -x ELSE x
 SumF(s, f(_)) == LET F[i \in 0..Len(s)] == IF i = 0 THEN 0 ELSE F[i - 1] + f(s[i]) IN F[Len(s)]
 FloorDiv(a, b) == a \div b
@@ -44,7 +45,8 @@ Equity(e, typ) == IF typ = "futures" THEN EquityFutures(e) ELSE EquitySpot(e)
 OneRouteOnly(e) == \E s \in AllSyms(e) : Abs(e.value - (e.wallet + Reserved(e, {s}) + BaseValue(e))) <= Tol(e)
 
 DailyVerdict(e, h) ==
-  IF nd = 0 /\ e.value # h.start THEN "first-sample-not-the-starting-balance"
+  IF e.len # nd + 1 THEN "series-has-samples-that-no-day-boundary-produced"      \* len = length of the series right after sampling
+  ELSE IF nd = 0 /\ e.value # h.start THEN "first-sample-not-the-starting-balance"
   ELSE IF Abs(e.value - Equity(e, h.type)) <= Tol(e) THEN "ok"
   ELSE IF h.type = "spot" /\ OneRouteOnly(e) THEN "sample:spot:resting-buy-orders-of-other-routes-not-counted"
   ELSE "sample:" \o h.type \o ":not-the-account-equity"
@@ -52,11 +54,12 @@ DailyVerdict(e, h) ==
 Step ==
   /\ verdict = "ok" /\ l <= Len(Ev(tid))
   /\ LET e == Ev(tid)[l]  h == Hdr(tid) IN
-     CASE e.k = "daily" -> /\ verdict' = DailyVerdict(e, h) /\ nd' = nd + 1 /\ lastv' = e.value
-       [] e.k = "final" -> /\ verdict' = (IF nd # Samples(h.n) THEN "sample-count"
+     CASE e.k = "daily" -> /\ verdict' = DailyVerdict(e, h) /\ nd' = nd + 1 /\ lastv' = e.value /\ vals' = Append(vals, e.value)
+       [] e.k = "final" -> /\ verdict' = (IF nd # Samples(h.n) \/ Len(e.series) # Samples(h.n) THEN "sample-count"
+                                         ELSE IF e.series # vals THEN "series-differs-from-the-samples-taken"
                                          ELSE IF Abs(lastv - Equity(e, h.type)) > Tol(e) THEN "last-sample-not-the-final-portfolio-value"
                                          ELSE "ok")
-                           /\ UNCHANGED <<nd, lastv>>
+                           /\ UNCHANGED <<nd, lastv, vals>>
   /\ l' = l + 1 /\ UNCHANGED tid
 Spec == Init /\ [][Step]_vars
 Finished == verdict # "ok" \/ l > Len(Ev(tid))
